@@ -604,4 +604,32 @@ def qasmReadable (q : Quirks) (fv : FloatOf) (c : Circ) : Bool :=
   | .ok body => body.all lineOK
   | .error _ => false
 
+/-! ## domain of the QASM read-back: gate set and names -/
+
+/-- gate classes the QASM text has a reading for: nop gates (no line) and (controlled) library
+gates; excludes only an `MCtrl` of something that is not one of the library's nine base gates -/
+def qasmExportable (cls : GClass) : Bool := cls.isNop || (kind cls).isSome
+
+/-- characters of a qubit / circuit name: letters, digits, `_`, `.` -/
+def nameCharOK (c : Char) : Bool := c.isAlphanum || c == '_' || c == '.'
+
+/-- identifier-shaped (dotted names of compiled functions included) -/
+def identOK (t : Text) : Bool := !t.isEmpty && t.all nameCharOK
+
+/-- a parameter literal is one token (true of every `repr` of a Python number) -/
+def paramPlain : Param → Bool
+  | .lit s => s.toList.all (fun c => c != ' ' && c != '\n')
+  | _ => true
+
+def paramsPlain (gs : List AGate) : Bool := gs.all (fun g => paramPlain g.param)
+
+/-- condition on the circuit's names only: the circuit name and every qubit name are
+identifier-shaped, the names are distinct (keys of a dict), and the fallback name `q<i>` of a
+qubit without a name is not also the name of some qubit -/
+def wellNamed (c : Circ) : Bool :=
+  identOK c.name && c.qmap.all (fun kv => identOK kv.1) &&
+  decide ((c.qmap.map (·.1)).Nodup) &&
+  (List.range c.numQubits).all (fun i =>
+    (getKeyByIndex c.qmap i).isSome || !(c.qmap.map (·.1)).contains ('q' :: natText i))
+
 end QV.Export
